@@ -27,8 +27,13 @@ def sh(cmd, cwd=None, timeout=1500, env=None):
 
 
 def main():
+    demo_only = "--demo-only" in sys.argv
+    if demo_only:
+        sys.argv.remove("--demo-only")
     ID, mdir = sys.argv[1], sys.argv[2].rstrip("/")
     checks = sys.argv[3].split(",") if len(sys.argv) > 3 else [ID]
+    if demo_only:
+        checks = []
     m = os.path.basename(mdir)
     wt = "/tmp/seed-%s-%s" % (ID, m)
     gm = wt + "-gomod"
@@ -46,6 +51,11 @@ def main():
     run_md = open(mdir + "/RUN.md").read() if os.path.exists(mdir + "/RUN.md") else ""
     demo_cmds = []
     cps = re.findall(r"cp\s+(\S+)\s+(\S+)", run_md)
+    for m_ in re.finditer(r"[Cc]opy\s+`?([\w./-]+)`?\s+(?:in)?to\s+`?([\w./<>-]+)`?", run_md):
+        src_, dst_ = m_.group(1), m_.group(2)
+        if not src_.startswith("/"):
+            src_ = os.path.join(mdir, src_)
+        cps.append((src_, dst_))
     gos = re.findall(r"(go (?:test|run)[^\n`]*)", run_md)
     copies = []
     for src, dst in cps:
@@ -138,6 +148,10 @@ def main():
             shutil.copy(p, dst)
         elif os.path.isdir(p):
             shutil.copytree(p, os.path.join(dst, f), dirs_exist_ok=True)
+    if demo_only and os.path.exists(os.path.join(dst, "meta.json")):
+        old = json.load(open(os.path.join(dst, "meta.json")))
+        if "what_i_ran" in old and old["what_i_ran"].get("checks"):
+            res["checks"] = old["what_i_ran"]["checks"]
     meta.update(dict(breaks=ID, what_i_ran=res))
     json.dump(meta, open(os.path.join(dst, "meta.json"), "w"), indent=1)
     caught = {c: (r["rc"] == 1 and any(l.startswith("VIOLATION") for l in r["lines"])) for c, r in res.get("checks", {}).items()}
